@@ -37,6 +37,9 @@ RecvOps    == {"recv", "try_recv", "recv_timeout", "recv_batch", "try_recv_batch
 TryOps     == {"try_send", "try_send_batch", "try_send_batch_mut",
                "try_recv", "try_recv_batch", "try_recv_batch_mut"}
 SingleRecv == {"recv", "try_recv", "recv_timeout", "poll_next"}
+\* close() and the drop of a handle, when they overlap other threads' operations,
+\* are operations too: their effect becomes visible somewhere between call and return.
+LifeOps    == {"close", "drop"}
 \* send forms whose error hands the unsent values back to the caller
 CarryOps   == {"try_send", "send_batch", "try_send_batch", "send_batch_mut", "try_send_batch_mut"}
 
@@ -194,6 +197,23 @@ Handoff(s, r) ==
   /\ pend' = [pend EXCEPT ![s] = [@ EXCEPT !.vs = Tail(@), !.n = @ + 1, !.lin = "ok"],
                           ![r] = [@ EXCEPT !.got = <<Head(pend[s].vs)>>, !.lin = "val"]]
   /\ UNCHANGED <<cfg, buf, tx, rx, disc, once, out, gone, acked>>
+
+\* close: succeeds once per handle (C04 CloseIdempotent); drop: the handle is gone.
+LifeLin(o) ==
+  /\ pend[o].op \in LifeOps /\ pend[o].lin = ""
+  /\ LET h == pend[o].h IN
+     IF pend[o].op = "close"
+       THEN /\ IF h \in DOMAIN tx
+                 THEN /\ SetPend(o, [pend[o] EXCEPT !.lin = IF tx[h] = "live" THEN "ok" ELSE "err"])
+                      /\ tx' = [tx EXCEPT ![h] = "closed"] /\ UNCHANGED rx
+                 ELSE /\ SetPend(o, [pend[o] EXCEPT !.lin = IF rx[h] = "live" THEN "ok" ELSE "err"])
+                      /\ rx' = [rx EXCEPT ![h] = "closed"] /\ UNCHANGED tx
+            /\ UNCHANGED disc
+       ELSE /\ SetPend(o, [pend[o] EXCEPT !.lin = "ok"])
+            /\ tx' = [x \in DOMAIN tx \ {h} |-> tx[x]]
+            /\ rx' = [x \in DOMAIN rx \ {h} |-> rx[x]]
+            /\ disc' = disc \ {h}
+  /\ UNCHANGED <<cfg, buf, once, out, gone, acked>>
 
 Lin(o) ==
   \/ SendOne(o) /\ UNCHANGED disc
